@@ -94,6 +94,8 @@ def plan(prop, tier, seed, ex_tables=None):
             out.append((t, False))
     if prop in ('C06', 'C07', 'C08', 'C09', 'C10') or (prop == 'C15' and tier == 'thorough'):
         for t in corpus.colossal(big=(tier == 'thorough')):
+            if t.tag == 'colossal-pairs4400' and prop not in ('C06', 'C09'):
+                continue
             if prop != 'C15' or t.tag.endswith('contranominal17'):
                 out.append((t, False))
     if prop == 'C07' and tier == 'thorough':
